@@ -25,7 +25,9 @@
          soundness concludes: acceptance is the exact converse of soundness on complete assignments).
     9  "with nothing specified: neutral, lowest multiplicity per fragment"
          C05_default_neutral_lowspin (zero_ghost_fragments = False), C05_default_zgf_partial (zero_ghost_fragments =
-         True without ghost fragment); zero_ghost_fragments = True WITH a ghost fragment: only correspondence/oracle.
+         True without ghost fragment), C05_default_zgf (zero_ghost_fragments = True, ghost fragments or not: the
+         override pins the ghost fragments to (0,1) and the search still ends in the same neutral / lowest-multiplicity
+         assignment), C05_default_entries (what that assignment is, fragment by fragment).
     10 "when it cannot satisfy the rules it raises a validation error instead of returning a violating assignment"
          C05_fails_closed (+ C05_sound), C05_error_iff_no_solution_in_searched_space (an error is raised exactly when a
          non-positive multiplicity was supplied or NO assignment of the searched space -- described as a proposition,
@@ -42,7 +44,7 @@
          the candidate list that satisfies the specification; everything before it violates it).  *)
 From Coq Require Import ZArith List Bool.
 Require Import QV.Common.Outcome QV.Model.ChgMult QV.Model.ChgMultD QV.Proofs.ChgMult QV.Proofs.ChgMultSpace
-  QV.Proofs.ChgMultD QV.Gen.ChgMultRules QV.Proofs.ChgMultGen.
+  QV.Proofs.ChgMultD QV.Gen.ChgMultRules QV.Proofs.ChgMultGen QV.Proofs.ChgMultGhost.
 Import ListNotations.
 Open Scope Z_scope.
 
@@ -89,6 +91,18 @@ Proof. exact fill_default. Qed.
 Theorem C05_default_zgf_partial :
   forall fe, Forall (fun f => 0 <= zsum f) fe -> has_ghost (blank fe true) = false -> fill (blank fe true) = Ok (target fe).
 Proof. exact fill_default_zgf_noghost. Qed.
+
+(** ... and with zero_ghost_fragments = True in every case, in particular WITH ghost fragments (the override turns the
+    blank specification into one that pins every ghost fragment to charge 0, multiplicity 1). *)
+Theorem C05_default_zgf : forall fe, Forall (fun f => 0 <= zsum f) fe -> fill (blank fe true) = Ok (target fe).
+Proof. exact fill_default_zgf. Qed.
+
+(** The default answer fragment by fragment: charge 0; multiplicity 1 for a ghost fragment, otherwise the lowest one
+    the electron count allows (1 for an even count, 2 for an odd one). *)
+Theorem C05_default_entries : forall fe k f, nth_error fe k = Some f ->
+  nth_error (ofc (target fe)) k = Some 0 /\
+  nth_error (ofm (target fe)) k = Some (if is_ghost f then 1 else lowest (zsum f)).
+Proof. exact target_ghost_entries. Qed.
 
 (** It never returns anything but an assignment or a validation error. *)
 Theorem C05_fails_closed : forall i, fill i = Err Validation \/ exists r, fill i = Ok r.
@@ -167,6 +181,10 @@ Proof. repeat split; vm_compute; reflexivity. Qed.
 Example C05_ex_default : fill (blank [[1]; [0; 0]; [8; 1; 1]] false) = Ok (target [[1]; [0; 0]; [8; 1; 1]])
                          /\ target [[1]; [0; 0]; [8; 1; 1]] = {| oc := 0; ofc := [0; 0; 0]; om := 2; ofm := [2; 1; 1] |}.
 Proof. split; vm_compute; reflexivity. Qed.
+(** blank specification, zero_ghost_fragments, two ghost fragments (one of them without atoms) next to H and H2O *)
+Example C05_ex_default_zgf : has_ghost (blank [[1]; [0; 0]; []; [8; 1; 1]] true) = true
+  /\ fill (blank [[1]; [0; 0]; []; [8; 1; 1]] true) = Ok {| oc := 0; ofc := [0; 0; 0; 0]; om := 2; ofm := [2; 1; 1; 1] |}.
+Proof. split; vm_compute; reflexivity. Qed.
 (** the ghost override is exercised: Gh/He/Gh with total charge 1 and zero_ghost_fragments *)
 Example C05_ex_override :
   fill {| felez := [[0]; [2]; [0]]; ic := Some 1; ifc := [None; None; None]; im := None; ifm := [None; None; None]; zgf := true |}
@@ -188,6 +206,8 @@ Print Assumptions C05_accepts_valid_full_spec.
 Print Assumptions C05_accepts_spec.
 Print Assumptions C05_default_neutral_lowspin.
 Print Assumptions C05_default_zgf_partial.
+Print Assumptions C05_default_zgf.
+Print Assumptions C05_default_entries.
 Print Assumptions C05_fails_closed.
 Print Assumptions C05_error_iff_no_solution_in_searched_space.
 Print Assumptions C05_searched_space.
